@@ -40,7 +40,8 @@ Print Assumptions C13_string_fallback.
 Theorem C13_array_len_not_one : forall (T : Type) (a : arr T), (alen a <> 1)%nat -> unwrap a = RA a.
 Proof. exact @unwrap_id. Qed.
 Print Assumptions C13_array_len_not_one.
-(* ... refuted for length one (one-point maps): the reader hands a scalar to the constructor *)
+(* ... refuted for length one: hdf5group2dict hands a scalar on (for one-point maps the map reader restores the
+   point axis since repair 4fb3c89, Model/C13Map.restore_point_axis) *)
 Theorem C13_array_len_one_refuted : forall (T : Type) (x : T), exists a : arr T, alen a = 1%nat /\ unwrap a <> RA a.
 Proof. exact @unwrap_one_refuted. Qed.
 Print Assumptions C13_array_len_one_refuted.
